@@ -16,7 +16,8 @@ PROJECTION = "(capture events with their position relative to preconditions and 
 ASSUMPTIONS = ["user callables answer as a function of the site (A-oracle)"]
 
 AW = {"T": 10, "F": 3, "R": 0.5, "BR": 0.5, "CT": 0.5}
-NEIGHBOURS = [{"from": "C04", "limit": 1500, "why": "snapshots are inherited together with postconditions by the real metaclass"}]
+NEIGHBOURS = [{"from": "C04", "limit": 1500, "why": "snapshots are inherited together with postconditions by the real metaclass"},
+              {"from": "C17", "tags": ["late"], "limit": 600, "why": "duplicate snapshot names are refused at definition time also for late decorations of class members"}]
 
 
 def cases(tier, rng):
